@@ -25,6 +25,13 @@ Theorem C06_exactly_one_safety : forall inp s, reachable inp s ->
 Proof. intros inp s R. pose proof (reachable_Inv inp s R) as I. split; [apply I|apply I]. Qed.
 Print Assumptions C06_exactly_one_safety.
 
+(* NOTE (true by construction, not proved): in the model a reply IS its request (entry i of the reply log; the frame
+   header is written from the local that recv bound - tie_calls: recv binds (v0 = tag, v1 = message, ...), StartTag,
+   ClearTag and both sends get v0, handle gets v1, the second send gets handle's result).  So "same tag" is carried by
+   that tie and by the harness, which checks on the OBSERVED frames that every reply's tag is that of an outstanding
+   request of that connection and its type the matching R-type or Rlerror, exactly once (Loop/Cases.v [solicited]).  For
+   an ordinary request [reply_ok] allows both reply kinds, so the theorem below has content only for rejected frames
+   (always Rlerror) and flushes (always Rflush). *)
 Theorem C06_reply_type : forall inp s i r, reachable inp s -> In (i, r) (replies s) ->
   exists f, nth_error inp i = Some f /\ reply_ok f r.
 Proof.
@@ -181,6 +188,18 @@ Theorem C06_shutdown_drains : forall inp s, reachable inp s -> shut s = true -> 
 Proof. intros inp s R Hs Hm. apply (shutdown_drains inp (nnew s + nidle s)); auto. now apply reachable_Inv. Qed.
 Print Assumptions C06_shutdown_drains.
 
+(** ... and from the moment its handler has returned (backend work over), by its own steps and the sendMu holder's. *)
+Theorem C06_completes_once_handled : forall inp s i r, reachable inp s -> pc s i = RRet r ->
+  exists ls s', forallb progress_label ls = true /\ run inp ls s = Some s' /\ send_over s' i r /\
+                (wbroken s = false -> In (i, r) (replies s')).
+Proof.
+  intros inp s i r R Hp. pose proof (reachable_Inv inp s R) as I.
+  destruct (ret_completes inp s i r I Hp) as (ls & s' & H1 & H2 & H3 & H4).
+  exists ls, s'. repeat split; auto. intros Hb.
+  apply (send_over_unbroken inp s' i r (run_Inv inp ls s s' I H2)); [congruence|exact H3].
+Qed.
+Print Assumptions C06_completes_once_handled.
+
 (** ClearTag's panic("unused tag cleared") is unreachable. *)
 Theorem C06_cleartag_never_panics : forall inp s i r, reachable inp s -> pc s i = RRet r ->
   exists s', exec inp (LClear i) s = Some s'.
@@ -200,16 +219,17 @@ Proof. split; [exact tie_send_under_sendMu|exact tie_sends_only_in_handleRequest
 Theorem C06_tie_cleartag_before_send : cleartag_after_handle = true /\ cleartag_before_send = true.
 Proof. split; [exact tie_cleartag_after_handle|exact tie_cleartag_before_send]. Qed.
 Theorem C06_tie_starttag_and_spawn_under_recvMu :
-  starttag_under_recvMu = true /\ spawn_before_unlock = true /\ recv_under_recvMu = true /\ handle_after_unlock = true.
-Proof. exact (conj tie_starttag_under_recvMu (conj tie_spawn_before_unlock (conj tie_recv_under_recvMu tie_handle_after_unlock))). Qed.
+  starttag_under_recvMu = true /\ spawn_before_unlock = true /\ recv_under_recvMu = true /\ handle_after_unlock = true /\ idle_counted = true.
+Proof. exact (conj tie_starttag_under_recvMu (conj tie_spawn_before_unlock (conj tie_recv_under_recvMu (conj tie_handle_after_unlock tie_idle_counted)))). Qed.
 Theorem C06_tie_shared_nothing : loop_state = ["cs.ClearTag"; "cs.StartTag"; "cs.TagDone"; "cs.handle"; "cs.handleRequest"; "cs.handleRequests"; "cs.messageSize"; "cs.pendingWg"; "cs.r"; "cs.recvIdle"; "cs.recvMu"; "cs.recvShutdown"; "cs.sendMu"; "cs.server.log"; "cs.t"; "cs.tagMu"; "cs.tags"; "var dataPool"; "var msgDotLRegistry"]%string.
 Proof. exact tie_loop_state. Qed.
 Theorem C06_tie_events : handleRequest_events = expected_events.
 Proof. exact tie_events. Qed.
 Theorem C06_tie_bodies :
-  body_connState_StartTag = ["cs.tagMu.Lock()"; "defer cs.tagMu.Unlock()"; "_, ok := cs.tags[t]"; "if ok { return false }"; "cs.tags[t] = make(chan struct{})"; "return true"]%string /\
-  send_writes = ["vecs.WriteTo(w)"]%string.
-Proof. split; [exact tie_StartTag|exact tie_send_writes]. Qed.
+  body_connState_StartTag = ["cs.tagMu.Lock()"; "defer cs.tagMu.Unlock()"; "v0, v1 := cs.tags[v2]"; "if v1 { return false }"; "cs.tags[v2] = make(chan struct{})"; "return true"]%string /\
+  send_writes = ["v0.WriteTo(v1)"]%string /\
+  handleRequest_calls = expected_calls.
+Proof. exact (conj tie_StartTag (conj tie_send_writes tie_calls)). Qed.
 
 (** Non-vacuity: a run with an immediate tag re-use, a duplicate tag and a rejected frame. *)
 Definition ex_inp : list frame := [FReq 1 KOp; FReq 1 KOp; FReject 7; FConn].
